@@ -125,7 +125,8 @@ func propC07(t *rapid.T) {
 		}
 		if long && i == n1/2 {
 			// a long quiet stretch so that the rescan needs several 1000-block batches
-			for j := 0; j < 1100+rapid.IntRange(0, 1200).Draw(t, "quiet"); j++ {
+			nq := 1100 + rapid.IntRange(0, 1200).Draw(t, "quiet")
+			for j := 0; j < nq; j++ {
 				blk := w.node.NewBlock(w.node.Tip(), nil, nil)
 				if err := w.node.Attach(blk); err != nil {
 					t.Fatalf("HARNESS: %v", err)
@@ -277,7 +278,8 @@ func propC07(t *rapid.T) {
 			}
 			envB.Queue = nil
 			if (ev.Thorough() || rapid.IntRange(0, 3).Draw(t, "longGapQuick") == 0) && rapid.Bool().Draw(t, "longGap") {
-				for j := 0; j < 2050+rapid.IntRange(0, 300).Draw(t, "gapBlocks"); j++ {
+				ng := 2050 + rapid.IntRange(0, 300).Draw(t, "gapBlocks")
+				for j := 0; j < ng; j++ {
 					blk := w.node.NewBlock(w.node.Tip(), nil, nil)
 					if err := w.node.Attach(blk); err != nil {
 						t.Fatalf("HARNESS: %v", err)
@@ -314,7 +316,15 @@ func propC07(t *rapid.T) {
 			}
 			wB.env = envB
 			w.flag("live-interlude")
-			w.logf("B live interlude (importing=%v)", importing())
+			cur := uint64(0)
+			if wl, err := envB.W.Wallets(); err == nil {
+				for _, s := range wl {
+					if s.WalletID == m.id {
+						cur = s.Status.SyncedHeight
+					}
+				}
+			}
+			w.logf("B live interlude: tip %d, importing=%v, rescan cursor %d", w.node.Height(), importing(), cur)
 		},
 		"deliverA": w.actDeliver,
 		"deliverB": func(t *rapid.T) {
@@ -333,6 +343,7 @@ func propC07(t *rapid.T) {
 	for len(envB.Queue) > 0 {
 		envB.Deliver()
 	}
+	t.Logf("history before convergence:\n  %s", w.journalTail(400))
 	wB.finishTasks(t)
 	if !w.tipAnnounced {
 		w.actMine(t, true)
@@ -358,6 +369,7 @@ func propC07(t *rapid.T) {
 		}
 	}
 	wB.wallets = []*mwallet{mB}
+	t.Logf("history:\n  %s", w.journalTail(40))
 	w.auditLedger(t)
 	wB.auditLedger(t)
 	w.auditHistoriesOpt(t, true)
